@@ -77,7 +77,9 @@ def _build(d, maxlen):
     if d.chance(1, 12):
         s = d.choice([12345, 7, 100, 1212, -45, 7.0, 2.5, -0.5, 100.0,
                       1212.0, 1234567.0, 1000000.0, 123456789012.0, -0.0,
-                      100000.0, 999999.0, 12345678, 0.001, 1234.5])
+                      100000.0, 999999.0, 12345678, 0.001, 1234.5,
+                      0.3333333333333333, 0.30000000000000004,
+                      0.1234567890123456])
         L = len(str(s))
     if fn == 'LEFT' or fn == 'RIGHT':
         args = [s] if d.chance(1, 6) else [s, pos()]
@@ -124,7 +126,11 @@ def _build(d, maxlen):
     elif fn in ('CONCAT', 'CONCATENATE', 'AMP'):
         args = [s] + [_text(d, 4) if d.pick(4) else d.choice(
                           [d.int(0, 99), 7.0, 2.5, 30.0, 1234567.0, -0.0,
-                           1e6])
+                           1e6,
+                           # every digit of a long fraction belongs to the
+                           # text form
+                           0.3333333333333333, 0.30000000000000004,
+                           0.1234567890123456, 1.2e-16, 2.0000000000000004])
                       if d.pick(3) else bool(d.pick(2))
                       for _ in range(1 + d.pick(3))]
         if d.chance(1, 6):
